@@ -209,11 +209,11 @@ Definition known_sites : list (string * string) := [
   ("pkg/pdfcpu/stamp.go", "removeArtifacts");
   ("pkg/pdfcpu/validate/metaData.go", "catalogMetaData");
   ("pkg/pdfcpu/writeImage.go", "streamBytes");
-  ("pkg/pdfcpu/types/streamdict.go", "StreamDict.Encode");
-  (* xref stream content is decoded before the context exists: saveDecodedStreamContent(nil, ...) ->
-     decodeLimit(nil) = default (defect class xrefstm-decode-ignores-configured-limit) *)
-  ("pkg/pdfcpu/read.go", "xRefStreamDict")
+  ("pkg/pdfcpu/types/streamdict.go", "StreamDict.Encode")
 ].
+(* ("pkg/pdfcpu/read.go", "xRefStreamDict") was listed here until pdfcpu dd3ad7ed (the xref stream was
+   decoded with saveDecodedStreamContent(nil, ...), i.e. under the default limit: defect class
+   xrefstm-decode-ignores-configured-limit); the translator still reports such a call as LDefault. *)
 (* constructions of types.ObjectStreamDict that may leave MaxDecodeBytes unset: the write-side
    constructor (its content is produced by the writer, never decoded from a file) *)
 Definition osd_write_side : list (string * string) :=
